@@ -29,7 +29,7 @@ type graphViolation struct {
 
 // graphStats counts what the monitor walked.
 type graphStats struct {
-	Summaries, Nodes, OutEdges, InEdges, CallLinks, ClosureLinks, GlobalLocs, Points int
+	Summaries, Nodes, OutEdges, InEdges, CallLinks, ClosureLinks, GlobalLocs, Points, ContractGraphs int
 }
 
 func nodeDesc(n dataflow.GraphNode) string {
@@ -71,10 +71,24 @@ func checkGraph(state *dataflow.AnalyzerState, st *graphStats, add func(sig, det
 		st.Summaries++
 		allNodes(s, func(n dataflow.GraphNode) { inGraph[n] = true })
 	}
+	// the graphs to walk: every summary of the inter-procedural graph plus the dataflow-contract graphs
+	// (interface contracts live in the analyzer state, and call nodes may be linked to them)
+	graphs := map[*dataflow.SummaryGraph]*ssa.Function{}
 	for fn, s := range fg.Summaries {
-		if s == nil {
-			continue
+		if s != nil {
+			graphs[s] = fn
 		}
+	}
+	for _, s := range state.DataFlowContracts {
+		if s != nil {
+			st.ContractGraphs++
+			if _, ok := graphs[s]; !ok {
+				graphs[s] = s.Parent
+				allNodes(s, func(n dataflow.GraphNode) { inGraph[n] = true })
+			}
+		}
+	}
+	for s, fn := range graphs {
 		allNodes(s, func(n dataflow.GraphNode) {
 			st.Nodes++
 			for m, infos := range n.Out() {
@@ -428,7 +442,7 @@ func C17(tier string) {
 			if v.Name == "eager-fs" && tier != "thorough" {
 				continue
 			}
-			y, err := deriveConfig(p.BaseYAML, p.OrigDir, v.Set)
+			y, err := deriveConfig(p.BaseYAML, p.OrigDir, work, v.Set)
 			if err != nil {
 				continue
 			}
@@ -471,6 +485,7 @@ func C17(tier string) {
 			total.ClosureLinks += st.ClosureLinks
 			total.GlobalLocs += st.GlobalLocs
 			total.Points += st.Points
+			total.ContractGraphs += st.ContractGraphs
 			if st.OutEdges > 0 {
 				run.Distinct(p.Name + "/" + name)
 			}
@@ -488,8 +503,8 @@ func C17(tier string) {
 			}
 			run.Violation(v.Sig, fmt.Sprintf("program %s: %s", p.Name, v.Detail), files)
 		}
-		if pi == 0 {
-			run.Sample(map[string]any{"program": p.Name, "stats": res.Stats})
+		if pi == 0 || p.Name == "specs-twice" {
+			run.Sample(map[string]any{"program": p.Name, "stats": res.Stats, "worker_err": res.Err})
 		}
 	})
 	run.Cov["programs"] = len(progs)
@@ -500,6 +515,7 @@ func C17(tier string) {
 	run.Cov["call_links_checked"] = total.CallLinks
 	run.Cov["closure_links_checked"] = total.ClosureLinks
 	run.Cov["global_access_nodes_checked"] = total.GlobalLocs
+	run.Cov["contract_graphs_walked"] = total.ContractGraphs
 	run.Assumptions = append(run.Assumptions, "the monitor runs the same driver sequence as taint.Analyze through public entry points, with a visitor wrapper; it reads the graph through public accessors at quiescent points only")
 	run.Finish("exploration", "invariant monitor over the live inter-procedural graph at quiescent points (after graph construction, after every entry point, at return), eager and on-demand, on generated chain batches and the repository's taint test programs; "+
 		"distinct non-trivial = (program, mode) whose graph had edges; invariants: out<=>in with the same tuple index, call node<=>Callsites, closure node<=>ReferringMakeClosures, bound label->closure, global read/write location sets == access nodes of built summaries")
